@@ -143,7 +143,7 @@ def c17(ctx):
     ctx.tlc("PickEmbed", cfg(constants={"L": 7}, invariants=["Emit"]), name="C17_gen_sim", collect=sim,
             simulate="num=%d" % (20 if q else 400), depth=7, workers=1)
     ctx.run_vh("pickembed", ["-in", sim, "-max", 700 if q else 6000, "-maxslow", 100 if q else 1500])
-    ctx.run_vh("h2c", [])
+    ctx.run_vh("h2c", ["-max", 3000 if q else 30000])
     return ctx.finish("model_checking",
                       "behaviour = sequence of NewStream/CopyStream/Pick/Embed/Hash/Codec over 2 stream handles (seeded XOF; adversarial all-00 / all-ff prefixes forcing retries) and 2 point registers, data lengths 0..EmbedLen+8 x contents, messages of length 0..300 x tags (exhaustive to 2 steps, simulated to 6) x 21 group instances (capability matrix); after each producing step: q*P = O on the canonical route, Data() returns the stored bytes (also after encode/decode), relation to the other register (equal / differ) as the model predicts; plus Data() range check on 400 random members per embedding group and RFC 9380 vectors",
                       ["collision resistance: 'differ' verdicts assume no accidental collision", "the length-field layout per group (harness table transcribed from Embed) and RFC 9380 vectors embedded in the harness are trusted"], exhaustive=False)
